@@ -60,6 +60,28 @@ func expansionSites(p *core.Program) []*ssa.Function {
 				if _, keyIsParam := lk.Index.(*ssa.Parameter); takesElement(p, fn) || (keyIsParam && fn.Parent() == nil) {
 					// … and so is one that is handed just the name to look up (ingredients(name) Elements)
 					roots = contextRoots(p, fn, 2)
+					// an accessor of the book itself (func (m DBNodeMap) Lookup(name) (*DBNode, bool)) is the lookup
+					// written as a method: the functions that call it are the sites
+					if len(roots) == 1 && roots[0] == fn && fn.Signature.Recv() != nil && types.Identical(fn.Signature.Recv().Type(), dbT) {
+						roots = nil
+						for _, g := range p.Funcs {
+							if strings.HasPrefix(core.FnPkgPath(g), core.LibPath+"/resolver") {
+								continue
+							}
+							for _, gb := range g.Blocks {
+								for _, gin := range gb.Instrs {
+									if ci, ok := gin.(ssa.CallInstruction); ok && core.Callee(ci.Common()) == fn && g != fn {
+										top := g
+										if takesElement(p, g) && g.Parent() == nil {
+											roots = append(roots, contextRoots(p, g, 2)...)
+										} else {
+											roots = append(roots, top)
+										}
+									}
+								}
+							}
+						}
+					}
 				}
 				for _, r := range roots {
 					if !seen[r] {
